@@ -9,7 +9,7 @@
 //!           (and that nobody deleted) must be fully linked.
 //! * `stress` real threads, barrier start, hub-heavy creates (thorough and a small quick share).
 
-use graph_engine::{Direction, GraphEngine, PropertyValue};
+use graph_engine::{Direction, EdgeInput, GraphEngine, PropertyValue};
 use nv_engine::{main_for, pick, sched, CaseCtx, CustomPart, Fail, PropDef, PropPart, Tier, Violation};
 use proptest::prelude::*;
 use serde::{Deserialize, Serialize};
@@ -399,6 +399,11 @@ enum TOp {
     DeleteInitialEdge(u8),
     DeleteNode(u8),
     CreateNode,
+    /// update_edge of an initial edge (k < number of initial edges) or of one this thread created
+    UpdateEdge(u8),
+    UpdateNode(u8),
+    /// batch_create_edges of these (from, to, directed) triples
+    BatchCreate(Vec<(u8, u8, bool)>),
 }
 
 #[derive(Clone, Debug, Serialize, Deserialize)]
@@ -424,6 +429,9 @@ fn sched_strategy(t: Tier) -> impl Strategy<Value = SchedCase> {
                 2 => (0u8..4).prop_map(TOp::DeleteInitialEdge),
                 1 => (1..nodes).prop_map(TOp::DeleteNode),
                 1 => Just(TOp::CreateNode),
+                2 => (0u8..6).prop_map(TOp::UpdateEdge),
+                1 => (0..nodes).prop_map(TOp::UpdateNode),
+                1 => prop::collection::vec((ep.clone(), ep2.clone(), any::<bool>()), 1..4).prop_map(TOp::BatchCreate),
             ]
             .boxed()
         } else {
@@ -502,13 +510,45 @@ fn sched_check(c: &SchedCase, ctx: &mut CaseCtx, site: &'static str) -> Result<(
                     TOp::CreateNode => {
                         let _ = g.create_node("n", HashMap::new());
                     },
+                    TOp::UpdateEdge(k) => {
+                        let id = if (k as usize) < initial_edges.len() {
+                            Some(initial_edges[k as usize].0)
+                        } else {
+                            let l = log.lock().unwrap();
+                            l.created.get((k as usize - initial_edges.len()) % l.created.len().max(1)).map(|x| x.0)
+                        };
+                        if let Some(id) = id {
+                            let _ = g.update_edge(id, HashMap::from([("w".to_string(), PropertyValue::Int(i64::from(k)))]));
+                        }
+                    },
+                    TOp::UpdateNode(n) => {
+                        let id = nodes[n as usize % nodes.len()];
+                        let _ = g.update_node(id, None, HashMap::from([("w".to_string(), PropertyValue::Int(i64::from(n)))]));
+                    },
+                    TOp::BatchCreate(es) => {
+                        let inputs: Vec<EdgeInput> = es
+                            .iter()
+                            .map(|(a, b, d)| EdgeInput::new(nodes[*a as usize % nodes.len()], nodes[*b as usize % nodes.len()], "t", HashMap::new(), *d))
+                            .collect();
+                        if let Ok(r) = g.batch_create_edges(inputs.clone()) {
+                            let mut l = log.lock().unwrap();
+                            for (id, e) in r.created_ids.iter().zip(inputs.iter()) {
+                                l.created.push((*id, e.from, e.to, e.directed));
+                            }
+                        }
+                    },
                 }
             }
         }));
     }
-    let report = sched::run(scripts, &c.schedule, &[site], Duration::from_millis(40));
+    // the update windows (record read .. write-back) are scheduled together with the adjacency site
+    let sites = [site, "graph.edge.update.rmw", "graph.node.update.rmw"];
+    let report = sched::run(scripts, &c.schedule, &sites, Duration::from_millis(40));
     if let Some((t, msg)) = report.panics.first() {
         ctx.fail("panic-in-thread", format!("thread {t} panicked: {msg}"))?;
+    }
+    if report.trace.iter().any(|(_, s)| s.ends_with(".update.rmw")) {
+        ctx.label("a thread was switched out between the read and the write-back of update_edge / update_node");
     }
     let overlaps = report.overlaps(site);
     if overlaps > 0 {
@@ -560,6 +600,11 @@ fn sched_check(c: &SchedCase, ctx: &mut CaseCtx, site: &'static str) -> Result<(
     for id in &deleted_edges {
         if g.get_edge(*id).is_ok() {
             ctx.fail("deleted-edge-exists", format!("{when}: delete_edge({id}) returned Ok but the edge still exists"))?;
+        }
+    }
+    for id in &deleted_nodes {
+        if g.get_node(*id).is_ok() {
+            ctx.fail("deleted-node-exists", format!("{when}: delete_node({id}) returned Ok but the node still exists"))?;
         }
     }
     if ctx.inner.known_hit() {
